@@ -449,7 +449,7 @@ class Rewriter:
         self.note("R13", n)
 
     def common(self):
-        if getattr(self, "macros", ""):  # opt-in (`:: macros=a,b`): R20 (file-local macro_rules! call expanded from its definition), see rewrites_macro.py
+        if getattr(self, "macros", ""):  # opt-in (`:: macros=a,b`): R21 (file-local macro_rules! call expanded from its definition), see rewrites_macro.py
             import rewrites_macro
             rewrites_macro.apply(self, self.macros, Unsupported)
         self.r2_attrs_comments()
@@ -1240,7 +1240,7 @@ def emit_fn(u: Unit, fpath, impl_pat, name, spec: FnSpec, reach: bool, mutate):
     rw.cfg_on = set(x.strip() for x in spec.opts.get("cfg_on", "").split(",") if x.strip())  # R16
     rw.boxpin = spec.opts.get("boxpin") == "1"
     rw.matchrw = spec.opts.get("matchrw", "")
-    rw.macros, rw.macro_src = spec.opts.get("macros", ""), src  # R20
+    rw.macros, rw.macro_src = spec.opts.get("macros", ""), src  # R21
     try:
         t = rw.common()
         if spec.opts.get("mod") and spec.opts.get("rootpaths") == "1":
@@ -1410,6 +1410,10 @@ def structural_check(kind, files, pattern, allowed):
         for mm in re.finditer(r"(?m)^[ \t]*(?:pub(?:\([^)]*\))?\s+)?(?:(?:const|async|unsafe)\s+)*fn\s+([A-Za-z_][A-Za-z0-9_]*)", src.m[inner_lo:blk.end - 1]):
             if src._depth_at(inner_lo + mm.start(), inner_lo) == 0:
                 names.append(mm.group(1))
+        # (additive) a macro call at item level of the impl block may define methods the `fn` scan cannot see
+        for mm in re.finditer(r"(?m)^[ \t]*([A-Za-z_][A-Za-z0-9_:]*)!\s*[(\[{]", src.m[inner_lo:blk.end - 1]):
+            if src._depth_at(inner_lo + mm.start(), inner_lo) == 0:
+                names.append(mm.group(1) + "!")
         extra = [n for n in names if n not in allowed]
         missing = [n for n in allowed if n not in names]
         if extra:
